@@ -18,7 +18,8 @@
 (*   caller (cached_path)             Start, Contains, Ensure              *)
 (*   caller (a PathSetHandle kept by somebody: kind "handle")              *)
 (*                                    GetHandle, ActiveLoad ... Final      *)
-(*   worker (PathSet::manage task)    FirstPoll (upgrade + ongoing:=Some)  *)
+(*   worker (PathSet::manage task)    FirstPoll (upgrade), BeginFetch      *)
+(*                                       (ongoing:=Some under sync)        *)
 (*                                    FetchReturn(o) (fetcher answered;    *)
 (*                                       current_error / active published) *)
 (*                                    Finish (ongoing:=None, initialized,  *)
@@ -39,7 +40,8 @@
 (*                                                                         *)
 (* The manager object (Arc<MultiPathManagerInner>) lives while the user    *)
 (* holds it, while an API call borrows it, and while a worker holds the    *)
-(* upgraded reference during a fetch or its exit-path removal: `Alive`.    *)
+(* upgraded reference from its upgrade() until the end of the fetch, and   *)
+(* during its exit-path removal: `Alive`.                                  *)
 (* Otherwise workers only hold a Weak.                                     *)
 (* When it dies the map entries are dropped (cancel) and the issue channel *)
 (* closes, which a sleeping worker observes: StopExit.                     *)
@@ -90,7 +92,7 @@ mvars == <<managed, limbo, removed, cancelled, userHeld>>
 running == <<runC, runW>>
 vars  == <<mvars, wvars, cvars, running>>
 
-WPC == {"unborn", "spawned", "fetching", "finishing", "sleeping", "exiting", "removing", "exitnotify", "clearing", "dead"}
+WPC == {"unborn", "spawned", "starting", "fetching", "finishing", "sleeping", "exiting", "removing", "exitnotify", "clearing", "dead"}
 CPC == {"idle", "contains", "ensure", "insert", "have", "check", "late", "waiting", "final", "done"}
 
 TypeOK ==
@@ -134,7 +136,7 @@ InFlight(c) == cpc[c] \notin {"idle", "done"}
 \* strong references to the manager
 Alive == \/ userHeld
          \/ \E c \in Callers : Api(c) /\ (InFlight(c) \/ c \in linger)
-         \/ \E w \in Workers : wpc[w] \in {"fetching", "finishing", "removing"}
+         \/ \E w \in Workers : wpc[w] \in {"starting", "fetching", "finishing", "removing"}
 Live(w) == wpc[w] \notin {"unborn", "dead"}
 Unborn == {w \in Workers : wpc[w] = "unborn"}
 NextWorker == CHOOSE w \in Unborn : \A v \in Unborn : w <= v
@@ -175,15 +177,20 @@ WSched(w) == IF COOP THEN /\ (CpuFree \/ runW = w)
 -----------------------------------------------------------------------------
 (* internal steps of workers *)
 
-\* first poll of the spawned task: manager.upgrade(), then fetch_and_update sets ongoing under sync
+\* first poll of the spawned task: `let Some(manager) = self.manager.upgrade() else { return .. }`
 FirstPoll(w) ==
   /\ wpc[w] = "spawned"
-  /\ IF Alive   \* upgrade succeeded
-     THEN /\ wpc' = [wpc EXCEPT ![w] = "fetching"]
-          /\ ongoing' = [ongoing EXCEPT ![w] = TRUE]
-          /\ fetches' = [fetches EXCEPT ![w] = @ + 1]
-     ELSE /\ wpc' = [wpc EXCEPT ![w] = "exiting"]
-          /\ UNCHANGED <<ongoing, fetches>>
+  /\ wpc' = [wpc EXCEPT ![w] = IF Alive THEN "starting" ELSE "exiting"]
+  /\ UNCHANGED <<wkey, init, ongoing, err, active, used, fetches, mvars, cvars>>
+  /\ WSched(w)
+
+\* fetch_and_update, first critical section: ongoing_start := Some(now) under sync (the worker
+\* holds the upgraded reference from FirstPoll / Refetch on)
+BeginFetch(w) ==
+  /\ wpc[w] = "starting"
+  /\ wpc' = [wpc EXCEPT ![w] = "fetching"]
+  /\ ongoing' = [ongoing EXCEPT ![w] = TRUE]
+  /\ fetches' = [fetches EXCEPT ![w] = @ + 1]
   /\ UNCHANGED <<wkey, init, err, active, used, mvars, cvars>>
   /\ WSched(w)
 
@@ -339,7 +346,7 @@ Final(c) ==
   /\ CSched(c)
 
 -----------------------------------------------------------------------------
-WInternal(w) == FirstPoll(w) \/ Finish(w) \/ StopExit(w) \/ ExitUpgrade(w) \/ ExitRemove(w) \/ ExitNotify(w) \/ ExitClear(w)
+WInternal(w) == FirstPoll(w) \/ BeginFetch(w) \/ Finish(w) \/ StopExit(w) \/ ExitUpgrade(w) \/ ExitRemove(w) \/ ExitNotify(w) \/ ExitClear(w)
 CInternal(c) == Contains(c) \/ Ensure(c) \/ InsertLate(c) \/ ActiveLoad(c) \/ CheckReg(c)
                 \/ RegisterLate(c) \/ Wake(c) \/ Final(c)
 Internal == (\E w \in Workers : WInternal(w)) \/ (\E c \in Callers : CInternal(c))
@@ -382,14 +389,12 @@ IdleExpire(w) ==
   /\ UNCHANGED <<wkey, init, ongoing, err, active, fetches, mvars, cvars>>
   /\ WSched(w)
 
-\* maintenance tick at next_refetch
+\* maintenance tick at next_refetch: upgrade succeeds, maintain() goes on to fetch_and_update
 Refetch(w) ==
   /\ ExtOK
   /\ wpc[w] = "sleeping" /\ Alive /\ fetches[w] < MaxFetch
-  /\ wpc' = [wpc EXCEPT ![w] = "fetching"]
-  /\ ongoing' = [ongoing EXCEPT ![w] = TRUE]
-  /\ fetches' = [fetches EXCEPT ![w] = @ + 1]
-  /\ UNCHANGED <<wkey, init, err, active, used, mvars, cvars>>
+  /\ wpc' = [wpc EXCEPT ![w] = "starting"]
+  /\ UNCHANGED <<wkey, init, ongoing, err, active, used, fetches, mvars, cvars>>
   /\ WSched(w)
 
 \* path()/cached_path(): peek_with(..., try_active_path): sets the used flag, loads active
@@ -444,7 +449,7 @@ Drop ==
 Reclaim(w) ==
   /\ ExtOK
   /\ RECLAIM /\ w \in limbo /\ Alive
-  /\ wpc[w] \in {"spawned", "fetching", "finishing", "sleeping"}   \* afterwards it is unobservable
+  /\ wpc[w] \in {"spawned", "starting", "fetching", "finishing", "sleeping"}   \* afterwards it is unobservable
   /\ limbo' = limbo \ {w}
   /\ cancelled' = cancelled \cup {w}
   /\ UNCHANGED <<managed, removed, userHeld, wvars, cvars, running>>
@@ -459,7 +464,7 @@ External ==
 Next == Internal \/ External
 
 Fairness ==
-  /\ \A w \in Workers : /\ WF_vars(FirstPoll(w)) /\ WF_vars(Finish(w)) /\ WF_vars(StopExit(w))
+  /\ \A w \in Workers : /\ WF_vars(FirstPoll(w)) /\ WF_vars(BeginFetch(w)) /\ WF_vars(Finish(w)) /\ WF_vars(StopExit(w))
                         /\ WF_vars(ExitUpgrade(w)) /\ WF_vars(ExitRemove(w))
                         /\ WF_vars(ExitNotify(w)) /\ WF_vars(ExitClear(w))
                         /\ WF_vars(\E o \in Outcomes : FetchReturn(w, o))   \* lookups complete
